@@ -10,6 +10,7 @@
 (* tier; en[e] = entry objects of the memory tier.                                            *)
 (* C14: a Get never returns a value other than cur[k].v, never after a completed Delete,      *)
 (*      never past the deadline.                                                              *)
+(* C10: after Close nothing is served, writes are refused, background goroutines are gone.   *)
 (* C15: an entry evicted for capacity reaches the secondary tier before its slot disappears   *)
 (*      (unless the tier already holds the identical value); after things have settled a key  *)
 (*      that was neither deleted nor expired is still found (no reload); memory stays bounded *)
@@ -31,7 +32,7 @@ Init0 == [tid |-> "none", line |-> 0, maxsize |-> 0, loading |-> 0, failing |-> 
           cur |-> [k \in KeyDom |-> NoCur], sec |-> [k \in KeyDom |-> NoSec], en |-> <<>>, call |-> NoCall,
           gen |-> 0, secGot |-> <<0, 0, 0>>, secDelByGet |-> FALSE, loaded |-> FALSE, loadv |-> 0, loadttl |-> 0,
           pendDemote |-> {}, lastfail |-> FALSE, final |-> FALSE, lastdl |-> 0, failedEnt |-> {}, taint |-> [k \in KeyDom |-> -1], kflost |-> {}, kflostD |-> {}, copied |-> <<>>,
-          viol |-> {}, traces |-> 0, gets |-> 0, demotions |-> 0]
+          closed |-> FALSE, viol |-> {}, traces |-> 0, gets |-> 0, demotions |-> 0]
 
 V(s, prop, kind) == IF Cardinality(s.viol) >= 60 THEN s ELSE [s EXCEPT !.viol = @ \cup {<<prop, s.tid, s.line, kind>>}]
 Vif(s, c, prop, kind) == IF c THEN V(s, prop, kind) ELSE s
@@ -46,7 +47,15 @@ DoCall(s, e) == [s EXCEPT !.call = [op |-> e.op, k |-> e.k, v |-> e.v, ttl |-> e
 
 DoRet(s, e) ==
   LET c == s.call  k == c.k  cu == s.cur[k] IN
-  CASE e.op = "set" ->
+  CASE s.closed ->
+         \* C10 on the hybrid cache: after Close has returned nothing is served (not out of the secondary
+         \* tier either), a loading Get reports the closed cache
+         IF e.op = "hget"
+         THEN Vif(Vif(s, e.ok = 1 /\ s.loading = 0, "C10", "hybrid_get_served_after_close"),
+                  s.loading = 1 /\ e.n # 2, "C10", "loading_get_after_close_not_cache_closed_error")
+         ELSE s      \* a Set after Close reports TRUE in this code base; "no effect" is judged by the Gets that follow
+    [] e.op = "close" -> [s EXCEPT !.closed = TRUE]
+    [] e.op = "set" ->
          IF e.ok = 1
          THEN [s EXCEPT !.gen = s.gen + 1, !.taint = [s.taint EXCEPT ![k] = -1], !.kflost = @ \ {k}, !.kflostD = @ \ {k},
                         !.cur = [s.cur EXCEPT ![k] = [has |-> TRUE, v |-> c.v, deleted |-> FALSE, gen |-> s.gen + 1,
@@ -147,6 +156,7 @@ Upd(s0, e) ==
     [] e.ev = "adv" -> [s EXCEPT !.now = e.t]
     [] e.ev = "final" -> [s EXCEPT !.final = TRUE]
     [] e.ev = "hang" -> V(s, "C10", "call_did_not_return_" \o e.op)
+    [] e.ev = "census" -> Vif(s, e.after > e.before, "C10", "background_goroutine_alive_after_close")
     [] OTHER -> s
 
 TraceInit == l = 1 /\ st = Init0 /\ done = FALSE
